@@ -144,6 +144,106 @@ def rule_requested_rules(ctx, rep):
         rep.check("R-REQUESTED-RULES", q, fn.loc(), ok, "factory", "from_core_codemod no longer requests exactly the rule ids it puts in ToolMetadata")
 
 
+OPEN_STATES = {"open", "to_review", "confirmed", "reopened"}
+
+
+def rule_open_status(ctx, rep):
+    rep.rule(
+        "R-OPEN-STATUS",
+        "SonarResultSet.from_json admits an issue/hotspot only through a positive membership test of its status in a constant set of "
+        "open states (subset of open / to_review / confirmed / reopened); a negative test (status not in {resolved, closed}) lets every "
+        "other closed-like state (e.g. hotspot REVIEWED) through",
+        min_instances=1,
+    )
+    fn = ctx.prog.func("core_codemods.sonar.results.SonarResultSet.from_json")
+    fa = ctx.flow(fn)
+    adds = [c for c in walk_no_nested(fn.node) if isinstance(c, ast.Call) and last_attr(c.func) == "add_result"]
+    if not adds:
+        raise AnalysisError("SonarResultSet.from_json no longer adds results")
+    for c in adds:
+        ok = False
+        why = "results are added without any status test (closed issues drive fixes)"
+        for pol, txt in fa.must_at(c):
+            if "status" not in txt:
+                continue
+            try:
+                e = ast.parse(txt, mode="eval").body
+            except SyntaxError:
+                continue
+            if isinstance(e, ast.Compare) and len(e.ops) == 1 and isinstance(e.ops[0], ast.In) and isinstance(e.comparators[0], (ast.Tuple, ast.List, ast.Set)):
+                vals = {str(x.value).lower() for x in e.comparators[0].elts if isinstance(x, ast.Constant)}
+                if pol and vals and vals <= OPEN_STATES and len(vals) == len(e.comparators[0].elts):
+                    ok = True
+                elif not pol:
+                    why = f"status is tested negatively (`not in {sorted(vals)}`): any state outside that list is treated as open"
+                else:
+                    why = f"status whitelist {sorted(vals)} contains states that are not open states"
+            elif isinstance(e, ast.Compare) and isinstance(e.ops[0], ast.Eq) and pol:
+                v = e.comparators[0]
+                ok = isinstance(v, ast.Constant) and str(v.value).lower() in OPEN_STATES
+        rep.check("R-OPEN-STATUS", fn.qname, fn.loc(c), ok, "status-whitelist", why)
+
+
+def _dnf(e: ast.expr) -> list[list[ast.expr]]:
+    if isinstance(e, ast.BoolOp) and isinstance(e.op, ast.Or):
+        out = []
+        for v in e.values:
+            out += _dnf(v)
+        return out
+    if isinstance(e, ast.BoolOp) and isinstance(e.op, ast.And):
+        acc = [[]]
+        for v in e.values:
+            acc = [a + b for a in acc for b in _dnf(v)]
+        return acc
+    return [[e]]
+
+
+def rule_match_columns(ctx, rep):
+    rep.rule(
+        "R-MATCH-COLUMNS",
+        "Result.match_location (the default used by every tool without an override) accepts a location only when line, start column and "
+        "end column all agree: every disjunct of its predicate constrains pos.start.column and pos.end.column and the line; line-only "
+        "matching exists only in overrides that state why (DefectDojo: no column data)",
+        min_instances=2,
+    )
+    fn = ctx.prog.func("codemodder.result.Result.match_location")
+    rets = [n.value for n in walk_no_nested(fn.node) if isinstance(n, ast.Return) and n.value is not None]
+    ok = bool(rets)
+    why = ""
+    for rv in rets:
+        pred = rv
+        if isinstance(rv, ast.Call) and call_name(rv) == "any" and rv.args and isinstance(rv.args[0], (ast.GeneratorExp, ast.ListComp)):
+            pred = rv.args[0].elt
+        elif isinstance(rv, ast.Constant) and rv.value is False:
+            continue
+        for conj in _dnf(pred):
+            txt = " && ".join(unparse(x) for x in conj)
+            has_line = "same_line(" in txt or ("start.line" in txt and "end.line" in txt)
+            has_cols = "pos.start.column" in txt and "pos.end.column" in txt
+            if not (has_line and has_cols):
+                ok = False
+                why = f"disjunct `{txt[:80]}` accepts a location without comparing line, start column and end column"
+    # other returns / early exits that accept
+    extra_true = [n for n in walk_no_nested(fn.node) if isinstance(n, ast.Return) and isinstance(n.value, ast.Constant) and n.value.value is True]
+    if extra_true:
+        ok = False
+        why = "an unconditional `return True` path exists"
+    rep.check("R-MATCH-COLUMNS", fn.qname, fn.loc(), ok, "line+columns", why or "match_location has no recognisable predicate")
+    # helper predicates used by it keep their meaning
+    sl = ctx.prog.func("codemodder.result.same_line")
+    t = unparse(sl.node)
+    ok = "pos.start.line == location.start.line" in t and "pos.end.line == location.end.line" in t
+    rep.check("R-MATCH-COLUMNS", sl.qname, sl.loc(), ok, "same_line", "same_line no longer compares both start and end line")
+    overrides = [m for q in ctx.prog.all_subclasses("codemodder.result.Result") for n, m in ctx.prog.classes[q].methods.items() if n == "match_location"]
+    for m in overrides:
+        txt = unparse(m.node)
+        delegating = "super().match_location" in txt
+        documented_line_only = m.cls.qname.endswith("DefectDojoResult")
+        uses_columns = "column" in txt or "fuzzy_column_match" in txt
+        rep.check("R-MATCH-COLUMNS", m.qname, m.loc(), delegating or documented_line_only or uses_columns, "override",
+                  "override of match_location ignores columns without being the documented line-only tool (DefectDojo)")
+
+
 def check(ctx, rep):
     rep.explanation = (
         "The registry model gives the 37 remediation codemods and their transformer classes; for each class a role-based facts "
@@ -155,4 +255,6 @@ def check(ctx, rep):
     rule_rule_keyed(ctx, rep)
     rule_change_findings(ctx, rep)
     rule_requested_rules(ctx, rep)
+    rule_open_status(ctx, rep)
+    rule_match_columns(ctx, rep)
     rep.not_covered += ["column arithmetic of match_location against each tool's real output", "closed/resolved issue filtering beyond the Sonar status test"]
